@@ -24,14 +24,19 @@
 (* Event shapes (k = kind):                                                 *)
 (*  asinit    top cur                      cursor reset to the temp page    *)
 (*  reserve   size res addr cur            EarlyReserveRegion(size)         *)
-(*  mapregion f size res page cur pairs capped   MapRegion(f, size, _)      *)
-(*  identity  f size res page cur pairs capped   IdentityMapRegion(f,size,_)*)
+(*  mapregion f size budget res page cur pairs seamfail  MapRegion(f,size,_)*)
+(*  identity  f size budget res page cur pairs seamfail  IdentityMapRegion  *)
 (*  reset                                  end of one case                  *)
-(* size/addr/cur/top/f/page: words; res: "ok" | "err" | "panic";            *)
+(* size/addr/cur/top/f/page: words; res: "ok" | "err" | "seamerr" (the very *)
+(* error the map seam returned came back) | "panic";                        *)
 (* cur: the package's reservation cursor after the call (projected state);  *)
-(* pairs: the <<page, frame>> numbers handed to the map seam, in call order;*)
-(* capped: the seam refused to record more than its cap (only reachable by  *)
-(* code that maps more pages than any generated request needs).             *)
+(* budget K: the map seam accepts K calls and fails on call K+1 (an input);  *)
+(* pairs: the <<page, frame>> numbers of ALL calls made to the map seam, in  *)
+(* call order (including the failing one); seamfail: call K+1 happened.     *)
+(* A mapper whose seam fails at call K+1 must have issued exactly the first *)
+(* K+1 consecutive pairs and return that error; success is only allowed     *)
+(* after exactly ceil(size/page) pairs - so huge satisfiable sizes (2^32     *)
+(* pages and more) are checked with a small K.                              *)
 (***************************************************************************)
 EXTENDS Integers, Sequences, FiniteSets
 CONSTANTS LimbBits, NLimbs, PB, Props
@@ -67,36 +72,41 @@ MonReserve(s, e) ==
           <<"C07", e.res = "panic", <<"EarlyReserveRegion panicked", e.size>> >>,
           <<"C07", e.res # "panic" /\ e.cur # s.cur, <<"failed reservation changed the reservation cursor", s.cur, e.cur>> >> >>]
 
-\* the recorded map-seam calls are exactly n consecutive (page, frame) pairs starting at (p0, f0)
-PairChecks(e, need, p0, f0) == <<
-  <<"C07", e.capped, "region mapping issued more map calls than any generated request needs">>,
-  <<"C07", need.ovf, <<"size cannot be covered by whole pages (round-up leaves the word range) but the mapping reported success", e.size>> >>,
-  <<"C07", ~need.ovf /\ W!FromNat(Len(e.pairs)) # need.n,
-           <<"number of pages mapped", Len(e.pairs), "pages needed to cover the size", need.n>> >>,
-  <<"C07", \E i \in 1..Len(e.pairs) : e.pairs[i] # <<Nth(p0, i), Nth(f0, i)>>,
-           "map calls are not consecutive pages to consecutive frames starting at the region start">> >>
+\* the recorded map-seam calls are consecutive (page, frame) pairs starting at (p0, f0)
+Consecutive(e, p0, f0) == \A i \in 1..Len(e.pairs) : e.pairs[i] = <<Nth(p0, i), Nth(f0, i)>>
+\* outcome checks shared by both region mappers; p0/f0: where the pairs have to start
+MapperChecks(e, need, p0, f0, what) == <<
+  <<"C07", e.res = "panic", <<what, "panicked", e.size>> >>,
+  <<"C07", e.res = "ok" /\ need.ovf,
+           <<what, "size cannot be covered by whole pages (round-up leaves the word range) but the mapping reported success", e.size>> >>,
+  <<"C07", e.res = "ok" /\ ~need.ovf /\ (e.seamfail \/ W!FromNat(Len(e.pairs)) # need.n),
+           <<what, "reported success after mapping", Len(e.pairs), "page(s); pages needed to cover the size", need.n>> >>,
+  <<"C07", e.seamfail /\ e.res \notin {"seamerr", "panic"},
+           <<what, "the map seam failed but the mapper returned", e.res>> >>,
+  <<"C07", ~e.seamfail /\ e.res = "seamerr", <<what, "returned the seam's error although the seam did not fail">> >>,
+  <<"C07", e.seamfail /\ Len(e.pairs) # e.budget + 1, <<what, "map calls after the seam failed", Len(e.pairs), "budget", e.budget>> >>,
+  <<"C07", e.seamfail /\ (need.ovf \/ ~W!Lt(W!FromNat(e.budget), need.n)),
+           <<what, "issued more map calls than pages needed", Len(e.pairs), "needed", need.n>> >>,
+  <<"C07", e.res \in {"ok", "seamerr"} /\ ~Consecutive(e, p0, f0),
+           <<what, "map calls are not consecutive pages to consecutive frames starting at the region start">> >>,
+  <<"C07", e.res = "err" /\ Len(e.pairs) # 0, <<what, "failed without a seam failure but mapped pages", Len(e.pairs)>> >> >>
 
+\* MapRegion: on success the region start is returned; when the seam fails no page is returned and the first
+\* map call tells where the reservation was made (it must be a legal placement too).  After a seam failure the
+\* statement does not say whether the reservation is kept, so `low` is left alone (lenient both ways).
 MonMapRegion(s, e) ==
-  LET a == W!ShiftL(e.page, PB) IN
-  IF e.res = "ok"
-  THEN [s |-> [low |-> a, cur |-> e.cur],
-        cs |-> PlacementChecks(s, a, e.size) \o PairChecks(e, Need(e.size), e.page, e.f)]
-  ELSE [s |-> [s EXCEPT !.cur = e.cur],
-        cs |-> <<
-          <<"C07", e.res = "panic", <<"MapRegion panicked", e.size>> >>,
-          <<"C07", e.capped, "region mapping issued more map calls than any generated request needs">>,
-          <<"C07", e.res # "panic" /\ e.cur # s.cur, <<"failed region mapping changed the reservation cursor", s.cur, e.cur>> >>,
-          <<"C07", e.res # "panic" /\ Len(e.pairs) # 0, <<"failed region mapping mapped pages", Len(e.pairs)>> >> >>]
+  LET p0 == IF e.res = "ok" \/ Len(e.pairs) = 0 THEN e.page ELSE e.pairs[1][1]
+      a  == W!ShiftL(p0, PB)
+      placed == e.res = "ok" \/ (e.res = "seamerr" /\ Len(e.pairs) > 0)
+  IN [s |-> [low |-> IF e.res = "ok" THEN a ELSE s.low, cur |-> e.cur],
+      cs |-> MapperChecks(e, Need(e.size), p0, e.f, "MapRegion")
+             \o (IF placed THEN PlacementChecks(s, a, e.size) ELSE <<>>)
+             \o << <<"C07", e.res = "err" /\ e.cur # s.cur, <<"failed region mapping changed the reservation cursor", s.cur, e.cur>> >> >>]
 
 MonIdentity(s, e) ==
-  IF e.res = "ok"
-  THEN [s |-> [s EXCEPT !.cur = e.cur],
-        cs |-> << <<"C07", e.page # e.f, <<"identity region does not start at the page with the frame's own number", e.page, e.f>> >> >>
-               \o PairChecks(e, Need(e.size), e.f, e.f)]
-  ELSE [s |-> [s EXCEPT !.cur = e.cur],
-        cs |-> <<
-          <<"C07", e.res = "panic", <<"IdentityMapRegion panicked", e.size>> >>,
-          <<"C07", e.capped, "region mapping issued more map calls than any generated request needs">> >>]
+  [s |-> [s EXCEPT !.cur = e.cur],
+   cs |-> MapperChecks(e, Need(e.size), e.f, e.f, "IdentityMapRegion")
+          \o << <<"C07", e.res = "ok" /\ e.page # e.f, <<"identity region does not start at the page with the frame's own number", e.page, e.f>> >> >>]
 
 Mon(s, e) ==
   CASE e.k = "asinit"    -> MonInit(s, e)
